@@ -69,12 +69,15 @@ class Layout:
     def _point_class(self, nxt):
         return ("elem", nxt[1]) if nxt[0] == "elem" else nxt
 
-    def classes(self, p):
-        """mutually exclusive, exhaustive cases of a byte position p: [(cond, kind)]. Positions that are syntactically a named point of
-        the layout (after simplification) get the short case split over the one run length involved; anything else the general one."""
+    def classes(self, p, entails=None):
+        """mutually exclusive, exhaustive cases of a byte position p: [(cond, kind)]. Positions that equal a named point of the layout
+        (syntactically after simplification, or - when `entails` is given - under the current path condition) get the short case
+        split over the one run length involved; anything else the general one."""
         def same(a, b):
             d = z3.simplify(a - b)
-            return z3.is_bv_value(d) and d.as_long() == 0
+            if z3.is_bv_value(d):
+                return d.as_long() == 0
+            return bool(entails and entails(a == b))
         if same(p, z3.BitVecVal(0, 64)):
             return [(z3.BoolVal(True), ("open",))]
         if same(p, self.n):
@@ -129,9 +132,12 @@ def _text(ex, start):
 def make_models(lay, literal_of):
     ctxbox = {}
 
-    def fork_classes(ex, p, fn):
+    def entails_in(ex, st):
+        return lambda c: not ex.feasible(list(st["pc"]) + lay.constraints() + [z3.Not(c)])
+
+    def fork_classes(ex, p, fn, st=None):
         alts = []
-        for cond, kind in lay.classes(p):
+        for cond, kind in lay.classes(p, entails_in(ex, st) if st is not None else None):
             alts.append((cond, (lambda ex_, st_, tr, kind=kind: fn(ex_, st_, kind))))
         return Fork(alts)
 
@@ -158,7 +164,7 @@ def make_models(lay, literal_of):
             else:
                 b.val = lay.interior(p)
             return ex_.mk_variant("Option", 1, "Some", Ptr(b))
-        return fork_classes(ex, p, f)
+        return fork_classes(ex, p, f, st)
 
     def byte_value(ex_, p, kind):
         if kind[0] == "open":
@@ -187,7 +193,7 @@ def make_models(lay, literal_of):
             if kind[0] == "eof":
                 return z3.BoolVal(False)
             return byte_value(ex_, p, kind) == c8
-        return fork_classes(ex, p, f)
+        return fork_classes(ex, p, f, st)
 
     def m_index_from(ex, st, callee, args, dty, site):
         p = _start(ex, args[0], lay)
@@ -207,7 +213,7 @@ def make_models(lay, literal_of):
             if kind[0] == "interior":
                 return _text(ex_, z3.BitVec(ex_.ctx.fresh_name("trim_inside_element"), 64))
             return _text(ex_, p)
-        return fork_classes(ex, p, f)
+        return fork_classes(ex, p, f, st)
 
     def m_eq_literal(ex, st, callee, args, dty, site):
         p = _start(ex, args[0], lay)
@@ -285,7 +291,7 @@ def make_models(lay, literal_of):
             return Fork([(gb, lambda e2, s2, t2: e2.mk_variant("Option", 1, "Some", e2.mk_variant("Result", 0, "Ok", Opaque(z3.Const(f"value:garbage@read{j}", OBJ))))),
                          (z3.Not(gb), lambda e2, s2, t2: e2.mk_variant("Option", 1, "Some", e2.mk_variant("Result", 1, "Err", Opaque(z3.Const(f"serde_error:garbage@read{j}", OBJ)))))])
         alts = []
-        for cond, kind in lay.classes(p):
+        for cond, kind in lay.classes(p, entails_in(ex, st)):
             alts.append((cond, (lambda ex_, st_, tr, kind=kind: f(ex_, st_, kind, tr))))
         return Fork(alts)
 
